@@ -87,8 +87,8 @@ pub fn check_stream(ls: &LangSet, code: &str, toks: &[IdTok], t: f64) -> (usize,
 }
 
 pub fn run(ctx: &Ctx) -> Outcome {
-    let n_texts = ctx.n(120_000, 4_000_000);
-    let n_streams = ctx.n(60_000, 2_000_000);
+    let n_texts = ctx.n(500_000, 10_000_000);
+    let n_streams = ctx.n(250_000, 5_000_000);
     let rep = run_sharded(ctx, |w, nw, rep| {
         let ls = LangSet::new();
         let mut rng = Rng::derive(ctx.seed, "C02", w as u64);
